@@ -130,6 +130,9 @@ class Cfg:
                     if len(rv.ops) == 1 and rv.ops[0].place is not None and not rv.ops[0].place.proj:
                         inner = rv.ops[0].place.local
                     seq.append(("set", L, rv.j["variant"], inner))
+                elif rv.k == "agg" and rv.j.get("agg") == "adt" and isinstance(rv.j.get("vi"), int) and rv.j.get("variant") != rv.j.get("path", "").rsplit("::", 1)[-1]:
+                    # a variant of any other enum (a crate-private `enum Committed { Content(..), Entry(..) }`): known by index
+                    seq.append(("set", L, "#%d" % rv.j["vi"], None))
                 elif rv.k == "use" and rv.ops and rv.ops[0].place is not None and not rv.ops[0].place.proj:
                     seq.append(("copy", L, rv.ops[0].place.local))
                 elif rv.k == "use" and rv.ops and rv.ops[0].place is not None and len(rv.ops[0].place.proj) == 2 and \
@@ -201,10 +204,12 @@ class Cfg:
                     st.pop(op[1], None)
             elif k == "branch":
                 v = st.get(op[2])
+                inner = None
                 if isinstance(v, tuple) and v[0] == "w":
-                    v = v[1]
+                    v, inner = v[1], v[2]
                 if v in self._BRANCH:
-                    st[op[1]] = self._BRANCH[v]
+                    # (the payload of Ok / Some travels on in Continue)
+                    st[op[1]] = ("w", self._BRANCH[v], inner) if inner is not None and self._BRANCH[v] == "Continue" else self._BRANCH[v]
                 else:
                     st.pop(op[1], None)
             else:
@@ -214,7 +219,7 @@ class Cfg:
         if sw is not None:
             v = st.get(sw)
             if isinstance(v, tuple) and v[0] == "d":
-                idx = self._VAR.get(v[1])
+                idx = int(v[1][1:]) if isinstance(v[1], str) and v[1].startswith("#") else self._VAR.get(v[1])
                 t = self.body.blocks[u].term
                 tgt = None
                 for val, blk in t.targets:
@@ -574,12 +579,23 @@ def _map_fn_item(wrapper):
     def tf(rest, term):
         if len(term.args) < 2 or not term.args[1].is_const or not term.args[1].fn:
             return None
-        fpath = (term.args[1].fn.get("resolved") or {}).get("path") or term.args[1].fn.get("path")
         inner = None
-        for rx, f in _TRANS_RE:
-            if rx.match(fpath or ""):
-                inner = f
+        for fpath in (term.args[1].fn.get("path"), (term.args[1].fn.get("resolved") or {}).get("path")):
+            for rx, f in _TRANS_RE:
+                if fpath and rx.match(fpath):
+                    inner = f
+                    break
+            if inner is not None:
                 break
+        if inner is not None and not rest:
+            # the whole wrapped value: unchanged when f is an identity-like conversion (`key.map(String::from)`)
+            try:
+                r0 = inner((), None)
+            except Exception:
+                r0 = None
+            if r0 == [(0, (), IDENT)]:
+                return [(0, (), IDENT)]
+            return None
         if inner is None or rest[:2] != wrapper:
             return None
         try:
@@ -648,6 +664,7 @@ TRANSFORMERS = [
     (r"^async_lib::unwrap_joinhandle_value$", lambda rest, term: [(0, (("await_join",),) + rest, IDENT)]),
     (r"^std::mem::(take|replace)$", _id()),
     (r"^std::task::Poll::<T>::map$", _map_fn_item((("v", "Ready"), ("f", "0")))),
+    (r"^std::option::Option::<T>::map$", _map_fn_item((("v", "Some"), ("f", "0")))),
     (r"^std::boxed::Box::<T>::new$", _id()),
 ]
 # identity steps that create a *new object* (value copies): crossed when asking "where does this
